@@ -311,6 +311,17 @@ func (fc *FuncCtx) runGhostSets(in ssa.Instruction, st *State, reach string) *St
 	}
 	t := fc.topCtx()
 	vars := fc.namesAt(in)
+	if ci, ok := in.(ssa.CallInstruction); ok {
+		c := ci.Common()
+		k := 0
+		if c.IsInvoke() {
+			vars["arg0"] = fc.v(c.Value)
+			k = 1
+		}
+		for i, a := range c.Args {
+			vars[fmt.Sprintf("arg%d", i+k)] = fc.v(a)
+		}
+	}
 	if v, ok := in.(ssa.Value); ok {
 		if tv, ok := fc.val[v]; ok {
 			vars["result"] = tv
